@@ -1361,4 +1361,226 @@ theorem swapEdge_inv {fn : Fn R} {c c' : Cell R} {e : Edge}
 
 end
 
+/-! ## 10. decidable criteria for the hypotheses, and the link with the Boolean guards of the driver -/
+
+def tri2 (s : Nat) : Nat := s * (s + 1) / 2
+
+theorem tri2_succ (s : Nat) : tri2 (s + 1) = tri2 s + (s + 1) := by
+  unfold tri2
+  have : (s + 1) * (s + 1 + 1) = s * (s + 1) + (s + 1) * 2 := by ring
+  rw [this, Nat.add_mul_div_right _ _ (by norm_num)]
+
+theorem tri2_mono {s s' : Nat} (h : s ≤ s') : tri2 s ≤ tri2 s' := by
+  induction h with
+  | refl => exact Nat.le_refl _
+  | step _ ih => exact ih.trans (by rw [tri2_succ]; omega)
+
+/-- `edge::hash` (Cantor pairing) is injective -/
+theorem Edge.key_inj {e e' : Edge} (h : e.key = e'.key) : e.n1 = e'.n1 ∧ e.n2 = e'.n2 := by
+  have key : ∀ (a b a' b' : Nat), tri2 (a + b) + b = tri2 (a' + b') + b' → a + b ≤ a' + b' := by
+    intro a b a' b' h
+    by_contra hlt
+    have h1 : a' + b' + 1 ≤ a + b := by omega
+    have h2 := tri2_mono h1
+    rw [tri2_succ] at h2
+    omega
+  have h' : tri2 (e.n1 + e.n2) + e.n2 = tri2 (e'.n1 + e'.n2) + e'.n2 := h
+  have l1 := key _ _ _ _ h'
+  have l2 := key _ _ _ _ h'.symm
+  have hs : e.n1 + e.n2 = e'.n1 + e'.n2 := by omega
+  rw [hs] at h'
+  omega
+
+section
+variable {R : Type} [Add R] [Sub R] [Mul R] [Div R] [Neg R] [Lit R] [LT R] [LE R] [DecidableLT R]
+  [DecidableLE R] [DecidableEq R]
+
+def faceFreeOkB (c : Cell R) : Bool :=
+  c.freeFaces.all (fun i => match c.faces[i]? with | some f => !f.used | none => false) &&
+    decide c.freeFaces.Nodup
+
+theorem faceFreeOk_of_B {c : Cell R} (h : faceFreeOkB c = true) : FaceFreeOk c := by
+  unfold faceFreeOkB at h
+  simp only [Bool.and_eq_true, List.all_eq_true, decide_eq_true_eq] at h
+  refine ⟨?_, h.2⟩
+  intro i hi
+  have := h.1 i hi
+  cases hn : c.faces[i]? with
+  | none => rw [hn] at this; cases this
+  | some f => rw [hn] at this; exact ⟨f, rfl, by simpa using this⟩
+
+def liveWith (c : Cell R) (g x y : Nat) : Bool :=
+  match (slots c)[g]? with
+  | some (some t) => hasNode t x && hasNode t y
+  | _ => false
+
+def edgeFacesB (c : Cell R) (ed : Edge) (x y : Nat) : Bool :=
+  match ed.f1, ed.f2 with
+  | some g1, some g2 => g1 != g2 && liveWith c g1 x y && liveWith c g2 x y
+  | _, _ => false
+
+theorem liveWith_spec {c : Cell R} {g x y : Nat} (h : liveWith c g x y = true) :
+    ∃ t, (slots c)[g]? = some (some t) ∧ hasNode t x = true ∧ hasNode t y = true := by
+  unfold liveWith at h
+  split at h
+  · rename_i t ht
+    simp only [Bool.and_eq_true] at h
+    exact ⟨t, ht, h.1, h.2⟩
+  · cases h
+
+theorem edgeFaces_of_B {c : Cell R} {ed : Edge} {x y : Nat} (h : edgeFacesB c ed x y = true) :
+    EdgeFaces c ed x y := by
+  unfold edgeFacesB at h
+  split at h
+  · rename_i g1 g2 h1 h2
+    simp only [Bool.and_eq_true, bne_iff_ne, ne_eq] at h
+    obtain ⟨⟨hne, l1⟩, l2⟩ := h
+    obtain ⟨t1, s1, a1, b1⟩ := liveWith_spec l1
+    obtain ⟨t2, s2, a2, b2⟩ := liveWith_spec l2
+    exact ⟨g1, g2, t1, t2, h1, h2, hne, s1, s2, a1, b1, a2, b2⟩
+  · cases h
+
+theorem EdgeFaces.symm {c : Cell R} {ed : Edge} {x y : Nat} (h : EdgeFaces c ed x y) : EdgeFaces c ed y x := by
+  obtain ⟨g1, g2, t1, t2, h1, h2, hne, s1, s2, a1, b1, a2, b2⟩ := h
+  exact ⟨g1, g2, t1, t2, h1, h2, hne, s1, s2, b1, a1, b2, a2⟩
+
+theorem getEdge_some {c : Cell R} {x y : Nat} {ed : Edge} (h : getEdge c x y = some ed) :
+    ed ∈ c.edges ∧ ed.key = Edge.keyOf x y := by
+  unfold getEdge EdgeSet.find? at h
+  exact ⟨List.mem_of_find?_eq_some h, by simpa using List.find?_some h⟩
+
+/-- a finite test for `EdgeIdxSound`: every stored edge names two different live faces containing its nodes -/
+def edgeIdxSoundB (c : Cell R) : Bool := c.edges.all (fun ed => edgeFacesB c ed ed.n1 ed.n2)
+
+theorem edgeIdxSound_of_B {c : Cell R} (h : edgeIdxSoundB c = true) : EdgeIdxSound c := by
+  intro x y ed hed
+  obtain ⟨hm, hk⟩ := getEdge_some hed
+  have hE := edgeFaces_of_B (List.all_eq_true.1 h ed hm)
+  unfold Edge.keyOf at hk
+  obtain ⟨k1, k2⟩ := Edge.key_inj hk
+  by_cases hxy : x < y
+  · simp only [Edge.mk', hxy, if_true] at k1 k2
+    rw [k1, k2] at hE; exact hE
+  · simp only [Edge.mk', hxy, if_false] at k1 k2
+    rw [k1, k2] at hE; exact hE.symm
+
+end
+
+/-! ### the Boolean guards evaluated by the driver imply the propositional ones -/
+
+theorem mem_he_iff {T : List Tri} {p : HE} : p ∈ he T ↔ p ∈ heM T := by
+  rw [mem_heM]
+  unfold he
+  rw [List.mem_flatMap]
+  constructor
+  · rintro ⟨t, ht, hp⟩
+    exact ⟨t, ht, by simpa [heTri, heTriM] using hp⟩
+  · rintro ⟨t, ht, hp⟩
+    exact ⟨t, ht, by simpa [heTri, heTriM] using hp⟩
+
+theorem mem_neighbours_of_adj {T : List Tri} {c d : Nat} (h : Adj T c d) : d ∈ neighbours T c := by
+  unfold neighbours
+  rw [List.mem_eraseDups, List.mem_filterMap]
+  rcases h with h | h
+  · exact ⟨(c, d), mem_he_iff.2 h, by simp⟩
+  · refine ⟨(d, c), mem_he_iff.2 h, ?_⟩
+    by_cases hdc : d = c
+    · simp [hdc]
+    · simp [hdc]
+
+/-- `swapGuardB` (checked by the driver on every executed swap) implies `SwapGuard` -/
+theorem swapGuard_of_B {T : List Tri} {a b : Nat} (h : swapGuardB T a b = true) : SwapGuard T a b := by
+  intro t1 t2 h1 h2
+  unfold swapGuardB at h
+  rw [h1, h2] at h
+  simp only [Bool.and_eq_true, bne_iff_ne, ne_eq, Bool.not_eq_true', List.contains_eq_mem,
+    decide_eq_false_iff_not] at h
+  exact ⟨h.1, fun hadj => h.2 (mem_neighbours_of_adj hadj)⟩
+
+/-- `splitGuardB` implies the guard of `split_inv` -/
+theorem splitGuard_of_B {T : List Tri} {a b : Nat} (h : splitGuardB T a b = true) :
+    ∀ t1 t2, findDir T a b = some t1 → findDir T b a = some t2 → opp t1 a b ≠ opp t2 b a := by
+  intro t1 t2 h1 h2
+  unfold splitGuardB at h
+  rw [h1, h2] at h
+  simpa using h
+
+/-! ## 11. non-vacuity: the octahedron over ℚ, evaluated by the kernel -/
+section examples
+set_option maxRecDepth 1000000
+
+def fnQ : Fn ℚ := ⟨id, id, id, id, fun _ => 0⟩
+def octa : List Tri := [(0, 2, 4), (2, 1, 4), (1, 3, 4), (3, 0, 4), (2, 0, 5), (1, 2, 5), (3, 1, 5), (0, 3, 5)]
+def octaQ : Except Err (Cell ℚ) :=
+  initCell fnQ [⟨1, 0, 0⟩, ⟨-1, 0, 0⟩, ⟨0, 1, 0⟩, ⟨0, -1, 0⟩, ⟨0, 0, 1⟩, ⟨0, 0, -1⟩] octa
+def octaCell : Cell ℚ := match octaQ with | .ok c => c | .error _ => ⟨#[], #[], [], [], []⟩
+/-- the index entries of the edges 0–2 (its first face traverses 0→2) and 1–2 (its first face traverses 2→1) -/
+def e02 : Edge := (getEdge octaCell 0 2).getD ⟨0, 0, none, none⟩
+def e12 : Edge := (getEdge octaCell 1 2).getD ⟨0, 0, none, none⟩
+
+def okB {ε α : Type} : Except ε α → Bool | .ok _ => true | .error _ => false
+theorem ok_of_okB {ε α : Type} {x : Except ε α} (h : okB x = true) : ∃ a, x = .ok a := by
+  cases x with
+  | ok a => exact ⟨a, rfl⟩
+  | error e => cases h
+
+local instance (T : List Tri) : Decidable (NonDeg T) := by unfold NonDeg; infer_instance
+local instance (T : List Tri) : Decidable (Simple T) := by unfold Simple; infer_instance
+local instance (T : List Tri) : Decidable (Closed T) := by unfold Closed; infer_instance
+
+theorem abs_octaCell : abs octaCell = octa := by decide +kernel
+
+theorem octa_inv : Inv (abs octaCell) := by
+  rw [abs_octaCell]; exact ⟨by decide, by decide, by decide⟩
+
+example : e02 = ⟨0, 2, some 0, some 4⟩ ∧ e12 = ⟨1, 2, some 1, some 5⟩ := by decide +kernel
+
+/-- all hypotheses of `splitEdge_refines` hold for the edge 0–2 of the octahedron, and the operation succeeds -/
+example : ∃ c' chk', splitEdge fnQ Gen.splitConsts octaCell e02 [] = .ok (c', chk') ∧
+    (abs c').Perm (splitT octa 0 2 6) ∧ FaceFreeOk c' := by
+  obtain ⟨⟨c', chk'⟩, h⟩ := ok_of_okB (x := splitEdge fnQ Gen.splitConsts octaCell e02 []) (by decide +kernel)
+  have hr := splitEdge_refines h (faceFreeOk_of_B (by decide +kernel)) octa_inv (by decide +kernel)
+    (edgeFaces_of_B (by decide +kernel))
+  have e : splitT (abs octaCell) e02.n1 e02.n2 (newSlot octaCell) = splitT octa 0 2 6 := by decide +kernel
+  rw [e] at hr
+  exact ⟨c', chk', h, hr.1, hr.2⟩
+
+/-- the same for `swapEdge_refines`; edge 0–2: neither new face is flipped -/
+example : ∃ c', swapEdge fnQ octaCell e02 = .ok c' ∧ TriEquiv (abs c') (swapT octa 0 2) ∧ FaceFreeOk c' := by
+  obtain ⟨c', h⟩ := ok_of_okB (x := swapEdge fnQ octaCell e02) (by decide +kernel)
+  have hr := swapEdge_refines h (faceFreeOk_of_B (by decide +kernel)) octa_inv (by decide +kernel)
+    (edgeFaces_of_B (by decide +kernel)) (edgeIdxSound_of_B (by decide +kernel))
+    (swapGuard_of_B (by decide +kernel))
+  have e : swapT (abs octaCell) e02.n1 e02.n2 = swapT octa 0 2 := by decide +kernel
+  rw [e] at hr
+  exact ⟨c', h, hr.1, hr.2⟩
+
+/-- edge 1–2: the first face traverses 2→1, both new faces are flipped by `check_face_winding_order` -/
+example : ∃ c', swapEdge fnQ octaCell e12 = .ok c' ∧ TriEquiv (abs c') (swapT octa 1 2) ∧ FaceFreeOk c' := by
+  obtain ⟨c', h⟩ := ok_of_okB (x := swapEdge fnQ octaCell e12) (by decide +kernel)
+  have hr := swapEdge_refines h (faceFreeOk_of_B (by decide +kernel)) octa_inv (by decide +kernel)
+    (edgeFaces_of_B (by decide +kernel)) (edgeIdxSound_of_B (by decide +kernel))
+    (swapGuard_of_B (by decide +kernel))
+  have e : swapT (abs octaCell) e12.n1 e12.n2 = swapT octa 1 2 := by decide +kernel
+  rw [e] at hr
+  exact ⟨c', h, hr.1, hr.2⟩
+
+/-- in that case the rotation is really needed: the triangle lists are not permutations of each other -/
+example : (match swapEdge fnQ octaCell e12 with
+    | .ok c' => decide ((abs c').Perm (swapT octa 1 2)) | .error _ => true) = false := by decide +kernel
+
+-- (`Surface.canon` itself cannot be evaluated by the kernel: `Array.qsort` is defined by well-founded recursion.)
+
+end examples
+
 end Simu.Remesh
+
+#print axioms Simu.Remesh.splitEdge_refines
+#print axioms Simu.Remesh.swapEdge_refines
+#print axioms Simu.Remesh.abs_addFace
+#print axioms Simu.Remesh.abs_deleteFace
+#print axioms Simu.Remesh.TriEquiv.of_canon
+#print axioms Simu.Remesh.heM_triEquiv
+#print axioms Simu.Remesh.swapGuard_of_B
+#print axioms Simu.Remesh.edgeIdxSound_of_B
+#print axioms Simu.Remesh.octa_inv
